@@ -742,6 +742,16 @@ fn main() {
     for l in malformed_lines(&mut r, 150 * sc, 14 * sc) {
         lines.push((l, "malformed"));
     }
+    // list-metadata lines with a multi-byte character at every position of their value (the value
+    // parsers slice by byte offsets: amounts, units, separators)
+    for base in META_LINES.iter().filter(|l| l.starts_with("! ") && l.contains(": ")) {
+        let start = base.find(": ").map(|i| i + 2).unwrap_or(0);
+        for (i, _) in base.char_indices().filter(|(i, _)| *i >= start).chain(std::iter::once((base.len(), ' '))) {
+            for mb in ["é", "４", "\u{a0}"] {
+                lines.push((format!("{}{}{}", &base[..i], mb, &base[i..]), "malformed"));
+            }
+        }
+    }
     if sc > 1 {
         // thorough: every prefix / every insertion of every interesting line
         for base in INTERESTING {
